@@ -1,5 +1,6 @@
 (* C15 - every explanation is a checkable derivation and every derived fact has one.
-   Property theorems only; proofs in Prov/ProofTreeProofs.v and Prov/ExplainProofs.v.
+   Property theorems only; proofs in Prov/ProofTreeProofs.v, Prov/ExplainProofs.v,
+   Prov/ExistsProofs.v and Prov/NegGroundProofs.v.
 
    Objects (no proofs in the model files):
    - Prov/ProofTree.v: proof trees (pnode) as provenance.ProofNode reports them, and the
@@ -10,7 +11,8 @@
      first derivation). *)
 From Coq Require Import List ZArith Bool Lia.
 From MV Require Import Datalog.Syntax Datalog.Interp Datalog.Solve Datalog.SolveProofs Datalog.SemiNaive
-  Datalog.Lfp Prov.ProofTree Prov.ProofTreeProofs Prov.Explain Prov.ExplainProofs.
+  Datalog.Lfp Datalog.Strata Datalog.StrataProofs Prov.ProofTree Prov.ProofTreeProofs Prov.Explain
+  Prov.ExplainProofs Prov.ExistsProofs Prov.NegGroundProofs.
 From MV Require Run.C15.
 Import ListNotations.
 Open Scope Z_scope.
@@ -53,23 +55,101 @@ Theorem explain_ref_default_sound : forall (P : list clause) (base St : list fac
 Proof. exact explain_ref_sound_lemma. Qed.
 Print Assumptions explain_ref_default_sound.
 
-(* ---- 3. every fact of the stratified least model has an accepted proof, and
+(* ---- 3. proof_exists: every fact of the evaluated store has an accepted proof, and
    explain_ref returns one.
-   Full statement (DESIGN C15 proof_exists): for a transform-free program P without
-   built-in atoms whose negated atoms are ground when reached, a valid stratification
-   `layers`, base facts `base`, and St = the facts of slfp P layers base:
-     forall f, In f St -> exists n, find_proof (explain_ref P base St) f = Some n /\
-                                     check_proof P base St f n = true.
-   Proved below with two of its steps as hypotheses instead of conclusions:
-   (a) `strat_ok` carries, per layer, "the evaluated store judges the negated atoms of
-       the layer's rules like the completed lower strata" (neg_agree) - this follows from
-       valid_stratification and St = slfp (facts added by higher layers have other
-       predicates), not proved here;
-   (b) the explainer's fuel is assumed sufficient (explain_ref_fuel returned Some) -
-       length St + 1 rounds suffice when St is the least model (every productive round
-       adds a fact of St), not proved here; the correspondence check evaluates explain_ref
-       with that fuel on sampled Go stores on every run (Run.C15.judge_ref). *)
-Theorem proof_exists_partial : forall (P : list clause) (layers : list (list Z)) (base St : list fact)
+   Program class (the only hypotheses besides the stratification): every clause of P is
+   transform-free (clet c = [], no let- and no do-transform), has no built-in comparison
+   atom (no_cmp: the premise kinds covered are positive atoms, negated atoms, equalities
+   `=` and inequalities `!=`; :lt :le :gt :ge are outside, finding N17), and its negated
+   atoms are ground when the left-to-right join reaches them (neg_ground_from, the safety
+   condition of the analysis; a decidable syntactic sufficient condition is neg_bound_b,
+   see proof_exists_decidable below).
+   `layers` is a valid stratification of P in C01's sense (Datalog/Lfp.v), St holds
+   exactly the stratified least model over the base facts. Then for every fact f of St
+   the table of explain_ref (fuel length St + 1, the default) has a node n, check_proof
+   accepts n as a proof of f - by check_proof_exact: n is a valid derivation, no fact its
+   own ancestor - and n concludes f.
+   Both steps that were hypotheses of the earlier proof_exists_partial are discharged in
+   Prov/ExistsProofs.v: (a) strat_ok - the store judges a layer's negated atoms like the
+   completed lower strata - follows from valid_stratification and St = slfp
+   (strat_ok_valid); (b) the fuel length St + 1 suffices (explain_ref_fuel_suffices). *)
+Theorem proof_exists : forall (P : list clause) (layers : list (list Z)) (base St : list fact),
+  (forall c, In c P -> clet c = [] /\ no_cmp (cbody c) /\ neg_ground_from (cbody c) []) ->
+  valid_stratification P layers ->
+  (forall f, In f St <-> slfp P layers (fun g => In g base) f) ->
+  forall f, In f St ->
+  exists n, find_proof (explain_ref P base St) f = Some n /\
+            check_proof P base St f n = true /\ node_fact n = f.
+Proof. exact proof_exists_lemma. Qed.
+Print Assumptions proof_exists.
+
+(* the same for the store that C01's engine model returns (by C01's strata_exact it holds
+   exactly the stratified least model over store + initial facts): any fuel, any caller's
+   store, any initial facts *)
+Theorem proof_exists_eval : forall (fuel : nat) (P : list clause) (layers : list (list Z))
+    (store init St : list fact),
+  (forall c, In c P -> clet c = [] /\ no_cmp (cbody c) /\ neg_ground_from (cbody c) []) ->
+  valid_stratification P layers ->
+  eval_program fuel P layers store init = Ok St ->
+  forall f, In f St ->
+  exists n, find_proof (explain_ref P (add_all store init) St) f = Some n /\
+            check_proof P (add_all store init) St f n = true /\ node_fact n = f.
+Proof. exact proof_exists_eval_lemma. Qed.
+Print Assumptions proof_exists_eval.
+
+(* the program class as a boolean test: prog_fine_b P = every clause has no transform, no
+   comparison atom, and every variable that is an argument of a negated atom is an
+   argument of an earlier positive atom or one side of an earlier equality whose other
+   side is not a variable (neg_bound_b, Prov/NegGroundProofs.v) *)
+Theorem proof_exists_decidable : forall (fuel : nat) (P : list clause) (layers : list (list Z))
+    (store init St : list fact),
+  prog_fine_b P = true ->
+  valid_stratification P layers ->
+  eval_program fuel P layers store init = Ok St ->
+  forall f, In f St ->
+  exists n, find_proof (explain_ref P (add_all store init) St) f = Some n /\
+            check_proof P (add_all store init) St f n = true /\ node_fact n = f.
+Proof.
+  intros fuel P layers store init St H. apply proof_exists_eval_lemma. apply prog_fine_b_sound. exact H.
+Qed.
+Print Assumptions proof_exists_decidable.
+
+Theorem neg_bound_ground : forall (body : list premise),
+  neg_bound_b [] body = true -> neg_ground_from body [].
+Proof. intros body H. apply (neg_bound_sound body [] [] H). intros v []. Qed.
+Print Assumptions neg_bound_ground.
+
+(* ---- the two steps on their own.
+   (a) a valid stratification whose model the store holds gives strat_ok: per layer, the
+   store judges the negated atoms of the layer's rules like the completed lower strata *)
+Theorem strat_ok_from_valid : forall (P : list clause) (layers : list (list Z)) (base St : list fact),
+  (forall c, In c P -> clet c = [] /\ no_cmp (cbody c) /\ neg_ground_from (cbody c) []) ->
+  valid_stratification P layers ->
+  (forall f, In f St <-> slfp P layers (fun g => In g base) f) ->
+  strat_ok P St (fun g => In g base) layers.
+Proof. exact strat_ok_valid. Qed.
+Print Assumptions strat_ok_from_valid.
+
+(* (b) the default fuel suffices for every program (with or without transforms,
+   comparison atoms: those offer no candidates) and every base, as soon as the store is
+   closed under the rules with negation judged against the store itself: the table never
+   holds a fact outside St nor a fact twice, every round that does not stop lengthens it *)
+Theorem explain_ref_fuel_suffices : forall (P : list clause) (base St : list fact),
+  (forall I c f, incl I St -> In c P -> derives (fun g => In g St) I c f -> In f St) ->
+  exists tbl, explain_ref_fuel (S (length St)) P base St = Some tbl.
+Proof. exact explain_ref_fuel_total. Qed.
+Print Assumptions explain_ref_fuel_suffices.
+
+(* the stratified least model is such a store *)
+Theorem slfp_store_closed : forall (P : list clause) (layers : list (list Z)) (B : factset) (St : list fact),
+  valid_stratification P layers -> (forall f, In f St <-> slfp P layers B f) ->
+  forall I c f, incl I St -> In c P -> derives (fun g => In g St) I c f -> In f St.
+Proof. exact store_closed_of_slfp. Qed.
+Print Assumptions slfp_store_closed.
+
+(* ---- the general completeness lemma the above instantiate (formerly
+   proof_exists_partial): any fuel that returned a table, any store with strat_ok *)
+Theorem explain_ref_complete : forall (P : list clause) (layers : list (list Z)) (base St : list fact)
     (fuel : nat) (tbl : table),
   explain_ref_fuel fuel P base St = Some tbl ->
   (forall f, In f base -> In f St) ->
@@ -77,7 +157,7 @@ Theorem proof_exists_partial : forall (P : list clause) (layers : list (list Z))
   forall f, slfp P layers (fun g => In g base) f ->
   exists n, find_proof tbl f = Some n /\ check_proof P base St f n = true.
 Proof. intros P layers base St fuel tbl. exact (explain_ref_fuel_complete P base St fuel layers tbl). Qed.
-Print Assumptions proof_exists_partial.
+Print Assumptions explain_ref_complete.
 
 (* one stratum, without the explainer: a table closed under the rules (no candidate
    with a new fact) holds every fact of the least model over a base it holds *)
@@ -132,6 +212,63 @@ Example ex_proof_exists :
                 end
   | None => false
   end = true.
+Proof. vm_compute. reflexivity. Qed.
+
+(* ---- the hypotheses of proof_exists / proof_exists_eval / proof_exists_decidable are
+   satisfiable by a two-layer program that negates a DERIVED predicate and joins through
+   a binding equality:
+     p2(X) :- p0(X).                            layer [2]
+     p3(X) :- p1(X), Y = fn:plus(X,1), !p2(Y).  layer [3]
+   store p0(1) (caller), initial facts p1(0) p1(1); the engine model returns the base
+   facts, p2(1) and p3(1) (p3(0) is blocked by p2(1)) *)
+Definition ex2_prog : list clause :=
+  [ mkClause (mkAtom 2 [TVar 1]) [PAtom (mkAtom 0 [TVar 1])] [];
+    mkClause (mkAtom 3 [TVar 1])
+      [PAtom (mkAtom 1 [TVar 1]); PEq (TVar 2) (TApp FPlus [TVar 1; TConst (CNum 1)]); PNeg (mkAtom 2 [TVar 2])] [] ].
+Definition ex2_layers : list (list Z) := [[2]; [3]].
+Definition ex2_store : list fact := [(0, [CNum 1]); (1, [CNum 0]); (1, [CNum 1]); (2, [CNum 1]); (3, [CNum 1])].
+
+Example ex2_class : prog_fine_b ex2_prog = true.
+Proof. vm_compute. reflexivity. Qed.
+
+Example ex2_class_semantic :
+  forall c, In c ex2_prog -> clet c = [] /\ no_cmp (cbody c) /\ neg_ground_from (cbody c) [].
+Proof. exact (prog_fine_b_sound ex2_prog ex2_class). Qed.
+
+Example ex2_valid : valid_stratification ex2_prog ex2_layers.
+Proof.
+  split.
+  - vm_compute. repeat constructor; simpl; intuition discriminate.
+  - intros c [<-|[<-|[]]].
+    + exists 0%nat. vm_compute. repeat split; intros q Hq; repeat (destruct Hq as [<-|Hq]; [auto with arith|]); try destruct Hq.
+    + exists 1%nat. vm_compute. repeat split; intros q Hq; repeat (destruct Hq as [<-|Hq]; [auto with arith|]); try destruct Hq.
+Qed.
+
+Example ex2_eval :
+  eval_program 10 ex2_prog ex2_layers [(0, [CNum 1])] [(1, [CNum 0]); (1, [CNum 1])] = Ok ex2_store.
+Proof. vm_compute. reflexivity. Qed.
+
+(* ... and the conclusion, computed: every fact of that store gets an accepted proof *)
+Example ex2_all_proved :
+  forallb (fun f => match find_proof (explain_ref ex2_prog (add_all [(0, [CNum 1])] [(1, [CNum 0]); (1, [CNum 1])]) ex2_store) f with
+                    | Some n => check_proof ex2_prog (add_all [(0, [CNum 1])] [(1, [CNum 0]); (1, [CNum 1])]) ex2_store f n
+                    | None => false
+                    end) ex2_store = true.
+Proof. vm_compute. reflexivity. Qed.
+
+(* the hypothesis of explain_ref_fuel_suffices / the conclusion of slfp_store_closed for it *)
+Example ex2_closed :
+  forall I c f, incl I ex2_store -> In c ex2_prog -> derives (fun g => In g ex2_store) I c f -> In f ex2_store.
+Proof.
+  apply (store_closed_of_slfp ex2_prog ex2_layers
+           (fun g => In g (add_all [(0, [CNum 1])] [(1, [CNum 0]); (1, [CNum 1])])) ex2_store ex2_valid).
+  exact (eval_program_exact _ _ _ _ _ _ ex2_valid ex2_eval).
+Qed.
+
+(* the class is not "everything": a negated atom over a variable nothing binds fails the
+   test (p2(X) :- p0(X), !p1(Y).) *)
+Example unbound_negation_rejected :
+  prog_fine_b [mkClause (mkAtom 2 [TVar 1]) [PAtom (mkAtom 0 [TVar 1]); PNeg (mkAtom 1 [TVar 2])] []] = false.
 Proof. vm_compute. reflexivity. Qed.
 
 (* ---- witnesses of the defects fixed in provenance/provenance.go: what the pre-fix
